@@ -10,8 +10,9 @@
 //!     only through the guarded count-down shape with small start values (termination);
 //!   * F25: no nil-accepting pattern (other than `[]`) on a value whose type is `T | []`; variables
 //!     of such a type are only observed in the program's final step;
-//!   * open finding "mid-chain match narrows the rest of the chain": a refutable match whose
-//!     scrutinee can be traced to a variable / the parameter is the last thing in its chain.
+//!   * open findings F37 (alternations only of literals / types / empty tuples, none inside a partial
+//!     pattern), F40 (no same-scope rebinding of a name that was read or bound to a traceable value),
+//!     F41 (no statically impossible type test).
 //!
 //! Generated programs must pass (the generator is built to), and the shrinker only moves through
 //! programs that pass — so a shrunk counterexample never drifts into unspecified territory or into
@@ -342,9 +343,6 @@ impl V {
                 }
             }
         }
-        if pins_of(pat).iter().any(|x| bound.contains(x)) {
-            return Err("pattern pins a name that it also binds (open finding: pin reads the not yet stored local)".into());
-        }
         if alt_inside_partial(pat, false) {
             return Err("alternation inside a partial pattern (open finding)".into());
         }
@@ -437,9 +435,6 @@ impl V {
             }
             // open finding "mid-chain match narrows the rest of the chain": a refutable match whose
             // scrutinee may carry provenance (variable, parameter, `~`) ends its chain
-            if i > 0 && matches!(terms[i - 1], Term::Match(_)) && last_match_narrows {
-                return Err("a refutable match on a variable / parameter is followed by more terms (open finding: mid-chain narrowing)".into());
-            }
             let is_last = i + 1 == terms.len();
             self.flow.set((after_match, prov));
             let before = cur.clone();
@@ -451,7 +446,7 @@ impl V {
                     let refutable = !(pat_binds(p, &before).is_some() && pat_irrefutable(p, &before));
                     last_match_narrows = refutable && prov && !after_match;
                     if last_match_narrows && self.in_field.get() > 0 {
-                        return Err("a refutable match on a variable / parameter inside a tuple field (open finding: mid-chain narrowing)".into());
+                        return Err("a refutable match on a variable / parameter inside a tuple field (open finding: F35 residual, narrowing survives the field)".into());
                     }
                     after_match = true
                 }
@@ -636,9 +631,6 @@ impl V {
             Some(p) => {
                 if ty.is_never() {
                     return Err("binding a tail call".into());
-                }
-                if self.last_narrows.get() {
-                    return Err("a refutable match on a variable / parameter is followed by the binding pattern (open finding: mid-chain narrowing)".into());
                 }
                 env.kill_pending();
                 let (vty, refutable) = self.check_pat(env, p, &ty, true, fs_out.1 && !fs_out.0)?;
